@@ -25,6 +25,7 @@ import (
 	"time"
 	"unsafe"
 
+	"github.com/whatap/golib/util/dateutil"
 	"github.com/whatap/golib/util/queue"
 
 	"verifharness/core"
@@ -56,9 +57,22 @@ type cbLog struct {
 	fset     map[elem]bool
 }
 
+// a queue that keeps calling a callback (an eviction loop that never makes
+// room) must not exhaust memory before the watchdog reports the call as
+// Timeout: beyond this many recorded calls the callback parks for good.
+const cbLimit = 1 << 16
+
+func (c *cbLog) runaway() {
+	if len(c.failed)+len(c.overflow) > cbLimit {
+		c.mu.Unlock()
+		select {}
+	}
+}
+
 func (c *cbLog) fail(k int) func(interface{}) {
 	return func(v interface{}) {
 		c.mu.Lock()
+		c.runaway()
 		c.failed = append(c.failed, []interface{}{k, proj(v)})
 		if e, ok := v.(elem); ok {
 			c.fset[e] = true
@@ -69,6 +83,7 @@ func (c *cbLog) fail(k int) func(interface{}) {
 func (c *cbLog) over(k int) func(interface{}) {
 	return func(v interface{}) {
 		c.mu.Lock()
+		c.runaway()
 		c.overflow = append(c.overflow, []interface{}{k, proj(v)})
 		c.mu.Unlock()
 	}
@@ -269,7 +284,20 @@ type hist struct {
 	accepted bool
 }
 
+// calls reported as Timeout so far in this process: each may have left a
+// goroutine spinning inside the queue, so after a few of them no further
+// history is generated (the run is failing anyway; every rejection is
+// re-generated on its own for confirmation)
+var stuckCalls int64
+
+const stuckLimit = 3
+
+func tooManyStuck() bool { return atomic.LoadInt64(&stuckCalls) >= stuckLimit }
+
 func (h *hist) log(ev core.Ev) {
+	if ev["ev"] == "Timeout" {
+		atomic.AddInt64(&stuckCalls, 1)
+	}
 	h.mu.Lock()
 	h.evs = append(h.evs, ev)
 	h.mu.Unlock()
@@ -444,13 +472,19 @@ func start(t *core.Trace, gen string, cas int, s setup, extra core.Ev) (*hist, e
 		return nil, err
 	}
 	h := &hist{t: t, q: q, cb: cb, set: s}
-	hd := core.Ev{"cap": []int{s.Cap[0], s.Cap[1]}, "cb": s.CB, "double": s.Double}
+	// the server-time correction of golib's clock (dateutil.Now = SystemNow + delta) has no bearing on how
+	// long a timed get lasts: every history runs under one of four corrections (histories run one at a time)
+	d := clockDeltas[cas%len(clockDeltas)]
+	dateutil.SetDelta(d)
+	hd := core.Ev{"cap": []int{s.Cap[0], s.Cap[1]}, "cb": s.CB, "double": s.Double, "clockdelta_s": int(d / 1000)}
 	for k, v := range extra {
 		hd[k] = v
 	}
 	t.Reset(gen, cas, hd)
 	return h, nil
 }
+
+var clockDeltas = []int64{0, 5000, -5000, 86400000}
 
 // waitParked waits until n goroutines sit in Cond.Wait (bounded; if the
 // condition variable is not observable it just gives them time to get there)
@@ -970,7 +1004,7 @@ func Run(c *core.Ctx) error {
 	if c.WantGen("seq") {
 		n := c.Pick(150, 1500)
 		for cas := 0; cas < n; cas++ {
-			if c.Want("seq", cas) {
+			if c.Want("seq", cas) && !tooManyStuck() {
 				if err := runSeq(c, t, cas); err != nil {
 					return err
 				}
@@ -986,7 +1020,7 @@ func Run(c *core.Ctx) error {
 		for round := 0; round < rounds; round++ {
 			for i, sc := range cases {
 				cas := round*1000 + i
-				if !c.Want("strand", cas) || timeouts >= 3 {
+				if !c.Want("strand", cas) || timeouts >= 3 || tooManyStuck() {
 					continue
 				}
 				n, err := runStrand(c, t, cas, sc)
@@ -1001,7 +1035,7 @@ func Run(c *core.Ctx) error {
 		n := c.Pick(250, 3000)
 		single := c.OnlyGen == "conc" && c.OnlyCase >= 0
 		for cas := 0; cas < n; cas++ {
-			if !c.Want("conc", cas) || timeouts >= 3 {
+			if !c.Want("conc", cas) || timeouts >= 3 || tooManyStuck() {
 				continue
 			}
 			// a single requested case (reproduction of a rejection) is a schedule-dependent
@@ -1010,7 +1044,7 @@ func Run(c *core.Ctx) error {
 			if single {
 				reps = 40
 			}
-			for i := 0; i < reps && timeouts < 3; i++ {
+			for i := 0; i < reps && timeouts < 3 && !tooManyStuck(); i++ {
 				k, err := runConc(c, t, cas)
 				if err != nil {
 					return err
